@@ -336,3 +336,44 @@ def u9_cases(seed, lo, hi, extra):
             if mo.startswith("ok ") or (exp and not mo.endswith(exp)):
                 st.disagreements.append({"unit": unit, "real": "exc " + res[1], "model": mo[:300], **desc})
     return st
+
+
+# ---------------------------------------------------------------------------
+# one XMLFormatter instance across document pairs that bind one prefix to different URIs (C08: diffing completes and
+# the output is well-formed whatever the formatter has processed before)
+
+
+def ns_reuse_cases(seed, lo, hi, extra):
+    from xmldiff import main, formatting
+    import real
+
+    st = core.Stats()
+    for idx in range(lo, hi):
+        r = core.rng_for(seed, "nsreuse", idx)
+        zp = r.choice(["n", "p", "meta", "x"])
+        u1, u2 = r.sample(["urn:verif:parts:v1", "urn:verif:parts:v2", "urn:verif:other"], 2)
+
+        def pair(uri, on_left):
+            decl = ' xmlns:%s="%s"' % (zp, uri)
+            w = r.choice(["two", "deux", "2"])
+            if on_left:
+                return ("<doc%s><%s:item>one</%s:item><%s:item>%s</%s:item></doc>" % ((decl,) + (zp,) * 3 + (w, zp)),
+                        "<doc%s><%s:item>one</%s:item><%s:item>%s changed</%s:item><%s:item>three</%s:item></doc>" % ((decl,) + (zp,) * 3 + (w, zp, zp, zp)))
+            return ("<doc><a>one</a></doc>", "<doc%s><a>one</a><%s:item>%s<%s:sub/></%s:item></doc>" % (decl, zp, w, zp, zp))
+
+        p1, p2 = pair(u1, r.random() < 0.5), pair(u2, r.random() < 0.5)
+        cfg = r.choice([{}, {"pretty_print": False}, {"use_replace": True}, {"normalize": formatting.WS_BOTH}])
+        st.evaluations += 1
+        st.units["ns-formatter-reused"] = st.units.get("ns-formatter-reused", 0) + 1
+        desc = {"first_pair": list(p1), "second_pair": list(p2), "formatter": repr(cfg)}
+        try:
+            f = formatting.XMLFormatter(**cfg)
+            main.diff_texts(p1[0], p1[1], formatter=f)
+            out = main.diff_texts(p2[0], p2[1], formatter=f)
+        except Exception as e:  # noqa
+            st.failures.append({"prop": "C08", "sig": f"C08/raises/{real.exc_sig(e)}/formatter-reused-prefix-rebound", **desc})
+            continue
+        for sig, det in xmlfmt.check_c08(out):
+            st.failures.append({"prop": "C08", "sig": f"{sig}/formatter-reused-prefix-rebound", "detail": det, "output": out[:600], **desc})
+        st.nontriv((p1, p2, repr(cfg)))
+    return st
